@@ -550,15 +550,16 @@ fn c14_anylayout(ctx: &mut Ctx, byref: bool) {
             for mode in MODES {
                 macro_rules! body {
                     ($d:expr, $mk:expr) => {{
-                        let mut d = $d;
-                        let prep = guarded(|| {
-                            for (k, s) in &paths[m as usize] {
-                                let _ = d.process_keyevent(KeyEvent::new(*k, *s));
-                            }
-                            let _ = d.change_layout($mk);
-                        });
-                        if prep.is_ok() {
-                            for k in &plain_keys {
+                        for k in &plain_keys {
+                            // a fresh decoder for every key: the recorded replay is exactly what was executed
+                            let mut d = $d;
+                            let prep = guarded(|| {
+                                for (k, s) in &paths[m as usize] {
+                                    let _ = d.process_keyevent(KeyEvent::new(*k, *s));
+                                }
+                                let _ = d.change_layout($mk);
+                            });
+                            if prep.is_ok() {
                                 let got = guarded(|| d.process_keyevent(KeyEvent::new(*k, KeyState::Down)));
                                 let want = guarded(|| Some(map_direct(to, *k, &mods_from_bits(m), mode)));
                                 n += 1;
@@ -824,7 +825,7 @@ pub fn decoder_family_with<J>(ctx: &mut Ctx, label: &str, layouts: &[usize], key
 where
     J: Fn(usize, KeyCode, u16, HandleControl, &Result<DecodedKey, String>) -> Option<(String, String)> + Sync,
 {
-    decoder_family_opts(ctx, label, layouts, keys_of, FamOpts { max_inter, mod_pairs: false, modifier_keys: false }, inter, judge)
+    decoder_family_opts(ctx, label, layouts, keys_of, FamOpts { max_inter, mod_pairs: false, key_then_mod_pairs: false, modifier_keys: false }, inter, judge)
 }
 
 #[derive(Clone, Copy)]
@@ -833,6 +834,8 @@ pub struct FamOpts {
     pub max_inter: usize,
     /// with max_inter = 1: additionally every ordered pair of *modifier key events* (18 x 18) between the two presses
     pub mod_pairs: bool,
+    /// with max_inter = 1: additionally every pair (press of one of the ordinary intermediate keys, then a modifier key event)
+    pub key_then_mod_pairs: bool,
     /// also press the modifier and lock keys themselves (the judge then sees them as `k`; the reference modifiers it
     /// gets are those just before the second press)
     pub modifier_keys: bool,
@@ -844,6 +847,9 @@ where
 {
     let max_inter = opts.max_inter;
     let mod_inter: Vec<EvAct> = inter.iter().filter(|a| matches!(a, EvAct::Key(k, _) if is_modifier_key(*k))).cloned().collect();
+    let key_inter: Vec<EvAct> = inter.iter().filter(|a| matches!(a, EvAct::Key(k, KeyState::Down) if !is_modifier_key(*k))).cloned().collect();
+    // every other key's press as a single intermediate action (pairs are only built from `inter`)
+    let extra: Vec<EvAct> = ALL_KEYS.iter().filter(|k| !is_modifier_key(**k) && !inter.iter().any(|a| matches!(a, EvAct::Key(x, KeyState::Down) if x == *k))).map(|k| EvAct::Key(*k, KeyState::Down)).collect();
     let paths = mods_paths();
     let n_states = 1024usize;
     let jobs: Vec<(usize, usize)> = layouts.iter().flat_map(|l| (0..n_states).map(move |s| (*l, s))).collect();
@@ -944,8 +950,18 @@ where
                     }
                 }
             }
+            for a in &extra {
+                check(&[a], &mut n, &mut bads);
+            }
             if max_inter < 2 && opts.mod_pairs {
                 for a in &mod_inter {
+                    for b in &mod_inter {
+                        check(&[a, b], &mut n, &mut bads);
+                    }
+                }
+            }
+            if max_inter < 2 && opts.key_then_mod_pairs {
+                for a in &key_inter {
                     for b in &mod_inter {
                         check(&[a, b], &mut n, &mut bads);
                     }
@@ -965,7 +981,7 @@ where
     }
     ctx.evaluations += total;
     ctx.traces_validated += total;
-    ctx.part(label, json!({"engine": "B two-press family through real EventDecoder", "layouts": layouts.len(), "start_states": n_states, "intermediate_actions": inter.len(), "max_intermediate_sequence": max_inter,
+    ctx.part(label, json!({"engine": "B two-press family through real EventDecoder", "layouts": layouts.len(), "start_states": n_states, "intermediate_actions": inter.len() + extra.len(), "of_which_also_used_in_pairs": inter.len(), "max_intermediate_sequence": max_inter, "key_press_then_modifier_event_pairs_too": opts.key_then_mod_pairs && max_inter < 2,
         "pairs_of_modifier_events_too": opts.mod_pairs && max_inter < 2, "modifier_and_lock_keys_pressed_too": opts.modifier_keys, "second_presses_judged": total, "violations_recorded": nb}));
     total
 }
@@ -1095,6 +1111,77 @@ fn c14_two_press(ctx: &mut Ctx, tags: u8) {
     ctx.part("sweep:two presses of one key with <=2 modifier/mode/layout actions between", json!({"engine": "B", "start_states": n_states, "keys": plain.len(), "intermediate_actions": inter.len(), "second_presses_checked": total, "violations_recorded": nb}));
 }
 
+/// The layout is consulted exactly once per ordinary key press and never for a modifier or lock key press, a release or
+/// a one-shot event: from every canonical state, one event of every kind and then an ordinary press, on a decoder whose
+/// layout answers with its own consultation count.
+fn c14_consultations(ctx: &mut Ctx) {
+    let paths = mods_paths();
+    let results = par_chunks(1024, |si| {
+        let m0 = (si % 512) as u16;
+        let mode = MODES[si / 512];
+        let mut n = 0u64;
+        let mut bads: Vec<(KeyCode, KeyState, String, String, &'static str)> = vec![];
+        let mut d0 = EventDecoder::new(Count(std::cell::Cell::new(0)), mode);
+        if guarded(|| {
+            for (k, s) in &paths[m0 as usize] {
+                let _ = d0.process_keyevent(KeyEvent::new(*k, *s));
+            }
+        })
+        .is_err()
+        {
+            return (m0, mode, n, bads);
+        }
+        let c0 = 0u32; // modifier events only so far: no consultation is due
+        for k in ALL_KEYS {
+            for st in [KeyState::Down, KeyState::Up, KeyState::SingleShot] {
+                // fresh decoder per event (the layout's counter is not Clone-shared)
+                let mut d = EventDecoder::new(Count(std::cell::Cell::new(0)), mode);
+                let r = guarded(|| {
+                    for (pk, ps) in &paths[m0 as usize] {
+                        let _ = d.process_keyevent(KeyEvent::new(*pk, *ps));
+                    }
+                    let r1 = d.process_keyevent(KeyEvent::new(k, st));
+                    let r2 = d.process_keyevent(KeyEvent::new(KeyCode::Q, KeyState::Down));
+                    (r1, r2)
+                });
+                n += 1;
+                let Ok((r1, r2)) = r else { continue };
+                let due = (st == KeyState::Down && !is_modifier_key(k)) as u32;
+                let cnt = |x: u32| DecodedKey::Unicode(char::from_u32(0xE0000 + x).unwrap());
+                if due == 1 && r1 != Some(cnt(c0 + 1)) && bads.len() < 3 {
+                    bads.push((k, st, format!("Some({})", dk_text(&cnt(c0 + 1))), crate::replay::fmt_dk(&r1), "first"));
+                }
+                if r2 != Some(cnt(c0 + due + 1)) && bads.len() < 3 {
+                    bads.push((k, st, format!("Some({})", dk_text(&cnt(c0 + due + 1))), crate::replay::fmt_dk(&r2), "second"));
+                }
+            }
+        }
+        (m0, mode, n, bads)
+    });
+    let mut total = 0;
+    for (m0, mode, n, bads) in results {
+        total += n;
+        for (k, st, want, got, which) in bads {
+            let mut ops: Vec<Op> = paths[m0 as usize].iter().map(|(k, s)| Op::Key(*k, *s)).collect();
+            ops.push(Op::Key(k, st));
+            if which == "second" {
+                ops.push(Op::Key(KeyCode::Q, KeyState::Down));
+            }
+            ctx.violation(
+                &format!("ev/consultations/{}:{}/{}", key_name(k), state_name(st), which),
+                &format!(
+                    "EventDecoder over a layout that answers with its own consultation count: from modifiers [{}] (mode {}), the event {:?} {:?}{} must return {} (one consultation per ordinary press, none otherwise) but returns {}",
+                    mods_text(m0), mode_name(mode), k, st, if which == "second" { " followed by Q Down: that press" } else { "" }, want, got
+                ),
+                Replay::one(&format!("ed:count-0:{}", mode_name(mode)), ops, &want, Some(got)),
+            );
+        }
+    }
+    ctx.evaluations += total;
+    ctx.traces_validated += total;
+    ctx.part("replay:layout consultations counted (one per ordinary press, none otherwise)", json!({"start_states": 1024, "events_per_state": 372, "histories_checked": total}));
+}
+
 pub fn c14(ctx: &mut Ctx) -> (u64, String) {
     ctx.trust("R-MODS step form (see C04) supplies the 'current modifier state' the layout must be consulted with");
     ctx.assume("state identity = derived PartialEq over all fields (hook H3)");
@@ -1104,6 +1191,7 @@ pub fn c14(ctx: &mut Ctx) -> (u64, String) {
     edges += run_evsys::<Keyboard<Echo, ScancodeSet1>>(ctx, "bfs:Keyboard<Echo,Set1>", false, true, false, HandleControl::MapLettersToUnicode);
     c14_anylayout(ctx, false);
     c14_two_press(ctx, if ctx.thorough() { 2 } else { 1 });
+    c14_consultations(ctx);
     {
         let all: Vec<usize> = (0..N_LAYOUTS).collect();
         let deep = ctx.thorough();
